@@ -5,6 +5,8 @@ from __future__ import annotations
 import numpy as np
 from hypothesis import strategies as st
 
+import pyttb as ttb
+
 from .. import gen, ref
 
 NORMS = {"1": 1, "2": 2, "inf": np.inf}
@@ -98,14 +100,20 @@ def odd_or_ambiguous(S, Z):
 # ----------------------------------------------------------------------------------------------------------------
 
 
+PRESERVING = ["ctor", "ctor", "ctor", "sum", "extract", "permute", "ttv"]
+CHANGING = ["unit", "unit", "absorbed", "scaled"]
+
+
 @st.composite
-def kt(draw, tier, min_order=1, max_order=4, max_rank=4, kinds=("int", "float"), weights="any", shape=None):
-    """gen.ktensor_case plus an explicit zero-weight / negative-weight class so that neither is rare."""
+def kt(draw, tier, min_order=1, max_order=4, max_rank=4, kinds=("int", "float"), weights="any", shape=None,
+       prov="any"):
+    """gen.ktensor_case plus an explicit zero-weight / negative-weight / equal-magnitude class so that none is rare,
+    plus the provenance of the operand (see ``operand``): prov = 'any' | 'preserving' | None."""
     c = draw(gen.ktensor_case(tier, kinds=kinds, min_order=min_order, max_order=max_order, max_rank=max_rank,
                               shape=shape, weights=weights))
+    r = c["rank"]
     if weights == "any":
-        cls = draw(st.sampled_from(["asdrawn", "asdrawn", "one-zero", "one-negative", "all-negative"]))
-        r = c["rank"]
+        cls = draw(st.sampled_from(["asdrawn", "asdrawn", "one-zero", "one-negative", "all-negative", "equal-magnitudes"]))
         if cls == "one-zero":
             c["weights"][draw(st.integers(0, r - 1))] = 0.0
         elif cls == "one-negative":
@@ -113,7 +121,141 @@ def kt(draw, tier, min_order=1, max_order=4, max_rank=4, kinds=("int", "float"),
             c["weights"][k] = -abs(c["weights"][k]) if c["weights"][k] != 0 else -2.0
         elif cls == "all-negative":
             c["weights"] = [-abs(x) if x != 0 else -3.0 for x in c["weights"]]
+        elif cls == "equal-magnitudes":
+            # exact ties for every sort by weight: the same magnitude everywhere, signs drawn; half of the time the
+            # columns of two components are equal up to sign too, so that the norm products tie as well
+            m = abs(c["weights"][0]) or 2.0
+            c["weights"] = [m if draw(st.booleans()) else -m for _ in range(r)]
+            if r >= 2 and draw(st.booleans()):
+                a, b = draw(st.permutations(range(r)))[:2]
+                for f in c["factors"]:
+                    sg = -1.0 if draw(st.booleans()) else 1.0
+                    for row in f:
+                        row[b] = sg * row[a]
+    if prov is not None:
+        c["prov"] = draw(_prov(c, prov))
     return c
+
+
+def inv(p):
+    q = [0] * len(p)
+    for i, v in enumerate(p):
+        q[v] = i
+    return q
+
+
+@st.composite
+def _prov(draw, c, which):
+    N, R = len(c["shape"]), c["rank"]
+    kind = draw(st.sampled_from(PRESERVING + (CHANGING if which == "any" else [])))
+    if kind == "sum" and R >= 2:
+        return dict(kind="sum", split=draw(st.integers(1, R - 1)))
+    if kind == "extract":
+        rbig = R + draw(st.integers(1, 2))
+        pos = list(draw(st.permutations(range(rbig))))[:R]
+        return dict(kind="extract", rbig=rbig, pos=pos)
+    if kind == "permute" and N >= 2:
+        return dict(kind="permute", q=list(draw(st.permutations(range(N)))))
+    if kind == "ttv":
+        nv = draw(st.integers(1, 3))
+        return dict(kind="ttv", m=draw(st.integers(0, N)), nv=nv, j=draw(st.integers(0, nv - 1)))
+    if kind == "unit":
+        return dict(kind="unit", normtype=draw(st.sampled_from(["2", "2", "1", "inf"])),
+                    sign=draw(st.sampled_from(["none", "neg", "neg", "times-minus-2"])))
+    if kind == "absorbed":
+        return dict(kind="absorbed", wf=draw(st.sampled_from(["all"] + list(range(N)))))
+    if kind == "scaled":
+        return dict(kind="scaled", s=draw(st.sampled_from([1e6, 1e-6])), where=draw(st.sampled_from(["weights", "factor"])),
+                    k=draw(st.integers(0, N - 1)))
+    return dict(kind="ctor")
+
+
+def operand(ctx, case):
+    """(K, effective case): the Kruskal tensor of the case reached through its provenance (public API only).
+
+    attribute-preserving provenances - the object has exactly the weights / factor matrices of the case but is the
+    result of an operation: 'sum' (A + B of two groups of components), 'extract' (components selected from a larger
+    tensor), 'permute' (mode permutation of the suitably pre-permuted tensor), 'ttv' (a tensor with one more mode, all
+    ones, contracted with a unit vector);
+    attribute-changing provenances - the effective case is read back from the object: 'unit' (normalize(): exactly
+    unit-norm columns, then optionally negated / multiplied by -2: negative weights on unit columns), 'absorbed'
+    (normalize(weight_factor=...): weights all one, C-ordered factor matrices), 'scaled' (weights or one factor times
+    1e+6 / 1e-6).
+    When the preparing call fails or does not give the expected attributes, the constructor is used (the preparing
+    operation is judged in its own cell) and the case is labelled 'prov-fallback'."""
+    F, w = fms_of(case), w_of(case)
+    R, N = case["rank"], len(case["shape"])
+    prov = case.get("prov") or dict(kind="ctor")
+    kind = prov["kind"]
+    K = None
+    changed = False
+    try:
+        if kind == "sum":
+            r1 = prov["split"]
+            K = (ttb.ktensor([f[:, :r1].copy() for f in F], w[:r1].copy())
+                 + ttb.ktensor([f[:, r1:].copy() for f in F], w[r1:].copy()))
+        elif kind == "extract":
+            rbig, pos = prov["rbig"], prov["pos"]
+            bigF = [np.full((f.shape[0], rbig), 1.5) for f in F]
+            bigw = np.full(rbig, -2.5)
+            for g, f in zip(bigF, F):
+                g[:, pos] = f
+            bigw[pos] = w
+            K = ttb.ktensor(bigF, bigw).extract(np.array(pos))
+        elif kind == "permute":
+            iq = inv(prov["q"])
+            K = ttb.ktensor([F[iq[j]].copy() for j in range(N)], w.copy()).permute(np.array(prov["q"]))
+        elif kind == "ttv":
+            m, nv = prov["m"], prov["nv"]
+            v = np.zeros(nv)
+            v[prov["j"]] = 1.0
+            F1 = [f.copy() for f in F[:m]] + [np.ones((nv, R))] + [f.copy() for f in F[m:]]
+            K = ttb.ktensor(F1, w.copy()).ttv(v, m)
+        elif kind == "unit":
+            K = ttb.ktensor([f.copy() for f in F], w.copy()).normalize(normtype=NORMS[prov["normtype"]])
+            if prov["sign"] == "neg":
+                K = -K
+            elif prov["sign"] == "times-minus-2":
+                K = K * -2.0
+            changed = True
+        elif kind == "absorbed":
+            K = ttb.ktensor([f.copy() for f in F], w.copy()).normalize(weight_factor=prov["wf"])
+            changed = True
+        elif kind == "scaled":
+            F2, w2 = [f.copy() for f in F], w.copy()
+            if prov["where"] == "weights":
+                w2 = w2 * prov["s"]
+            else:
+                F2[prov["k"]] = F2[prov["k"]] * prov["s"]
+            K = ttb.ktensor(F2, w2)
+            changed = True
+    except Exception:  # noqa: BLE001
+        K = None
+    ok = isinstance(K, ttb.ktensor) and not kt_ok(K, case["shape"], R) and all(
+        np.all(np.isfinite(f)) for f in K.factor_matrices) and np.all(np.isfinite(K.weights))
+    if ok and not changed:
+        ok = np.array_equal(K.weights, w) and all(np.array_equal(a, b) for a, b in zip(K.factor_matrices, F))
+    if not ok:
+        if kind != "ctor":
+            ctx.label("prov-fallback")
+        return ttb.ktensor([f.copy() for f in F], w.copy()), case
+    ctx.label("prov:" + kind + (":" + prov["sign"] if kind == "unit" else ""))
+    if any(not f.flags["F_CONTIGUOUS"] for f in K.factor_matrices):
+        ctx.label("operand:C-ordered-factors")
+    if not changed:
+        return K, case
+    cv = dict(case)
+    cv["weights"] = [float(x) for x in K.weights]
+    cv["factors"] = [[[float(x) for x in row] for row in np.asarray(f)] for f in K.factor_matrices]
+    if not ref.is_intvalued(K.weights, *K.factor_matrices) or max(
+            [np.abs(K.weights).max()] + [np.abs(f).max() for f in K.factor_matrices]) > 1e4:
+        cv["vkind"] = "float"
+    return K, cv
+
+
+def np_int(x, flag):
+    """an integer argument as numpy.int64 when flag is set (where pyttb accepts numpy integer scalars)"""
+    return np.int64(x) if (flag and isinstance(x, int)) else x
 
 
 def kt_labels(case):
